@@ -812,6 +812,18 @@ Proof.
   apply wp_ret. apply HQ; assumption.
 Qed.
 
+Lemma wp_propagator_at : forall P (Q : unit -> lst -> Prop) l, stable P -> P l -> (forall l', P l' -> Q tt l') -> wp propagator_at Q EA l.
+Proof.
+  intros P Q l HS HP HQ. unfold propagator_at.
+  apply wp_bind. apply (wp_diagonalize P); [exact HS | exact HP | ]. intros l1 H1. cbv beta.
+  apply wp_bind. apply (wp_t_prop P); [exact HS | exact H1 | ]. intros l2 H2. cbv beta.
+  apply wp_bind. apply (wp_lazy_prop _ P); [exact HS | exact H2 | ]. intros l3 H3. cbv beta.
+  apply wp_bind. apply (wp_lazy_prop _ P); [exact HS | exact H3 | ]. intros l4 H4. cbv beta.
+  destruct HS as [Hset [Hlog HLC]].
+  apply wp_bind. apply wp_may_raise; [split; [apply HLC, Hlog, H4 | apply Hinj] | ]. cbv beta.
+  apply wp_ret, HQ, Hlog, H4.
+Qed.
+
 Lemma wp_concat_input : forall g (Q : unit -> lst -> Prop) l,
   LC l -> (forall l', LCO g l' -> Q tt l') -> wp (concat_input fixed g) Q EA l.
 Proof.
@@ -890,6 +902,7 @@ Proof.
   - apply wp_noret, wp_extend_input; [exact HA | exact H | intros l' H'; eapply LCO_LC, H'].
   - apply wp_noret, wp_periodic_input; [exact HA | exact H | auto].
   - apply wp_ret, H.
+  - apply wp_noret, (wp_propagator_at A HA LC); [apply stable_LC | exact H | auto].
 Qed.
 
 (* requests that name their frequencies *)
@@ -1110,7 +1123,7 @@ Qed.
 Lemma ni_run_op : forall mc o, ni (run_op mc o).
 Proof.
   intros mc o. destruct o; cbn [run_op]; unfold noret, withret, error_transfer_matrix, infidelity_derivative,
-    concat_input, extend_input, periodic_input;
+    concat_input, extend_input, periodic_input, propagator_at;
   pose proof ni_get_cm; pose proof ni_cache_cm; pose proof ni_get_pccm; pose proof ni_get_ff; pose proof ni_cache_ff;
   pose proof ni_get_pcff; pose proof ni_get_deriv; pose proof ni_get_total_phases; pose proof ni_cache_total_phases;
   pose proof ni_diagonalize; pose proof ni_lazy_prop; pose proof ni_tpl_prop; pose proof ni_t_prop; pose proof ni_tau_prop;
